@@ -128,7 +128,9 @@ impl ContinuousOutput {
         for seg in &self.segs {
             let left = seg.xold.min(seg.xold + seg.h);
             let right = seg.xold.max(seg.xold + seg.h);
-            if t >= left - time_tol(left) && t <= right + time_tol(right) {
+            // `xold + h` carries the rounding error of the larger of the two ends (a step from 1e6 down to 1e-3)
+            let tol = time_tol(left).max(time_tol(right));
+            if t >= left - tol && t <= right + tol {
                 return Some(seg);
             }
         }
@@ -152,7 +154,9 @@ impl ContinuousOutput {
         for seg in &self.segs {
             let left = seg.xold.min(seg.xold + seg.h);
             let right = seg.xold.max(seg.xold + seg.h);
-            if t >= left - time_tol(left) && t <= right + time_tol(right) {
+            // `xold + h` carries the rounding error of the larger of the two ends (a step from 1e6 down to 1e-3)
+            let tol = time_tol(left).max(time_tol(right));
+            if t >= left - tol && t <= right + tol {
                 return Some(seg);
             }
         }
